@@ -6,7 +6,7 @@ from hypothesis import strategies as st
 from reactivex.internal import ArgumentOutOfRangeException
 
 from vlib.core import FAIL, OK, SKIP, Check
-from vlib.vtsched import Inconclusive, VTModel, clock_of, enc_abs, enc_rel, escaped, make
+from vlib.vtsched import TEST_INTERNALS, Inconclusive, VTModel, clock_of, enc_abs, enc_rel, escaped, make
 
 PROPERTY_ID = "C28"
 LEVEL = "exploration"
@@ -18,7 +18,7 @@ RULE = (
     "schedule / schedule_relative (incl. negative) / schedule_absolute (literal times incl. past and the TestScheduler "
     "harness instants 100/200/1000, or clock+offset), cancel (index modulo the disposables handed out so far), "
     "advance_to (clock+offset: backwards, zero, forwards) / advance_by / sleep (incl. negative) / start / stop; every "
-    "action carries a finite program that schedules (through the scheduler handed to it), cancels and stops, nested to "
+    "action carries a finite program that schedules (through the scheduler handed to it), cancels, stops and makes re-entrant advance_to(now+k)/advance_by(k)/start() calls (k>0; ignored by the running scheduler, modelled as no-ops), nested to "
     "depth 3. After every command: action log [id, clock at invocation] equals the model's (order = (due, seq); clock at "
     "invocation = max(due, previous clock); cancelled never run; advance_* ran exactly the due set), the clock equals the "
     "model's (target after advance_*/sleep), every observed clock value is >= the previous one, and "
@@ -27,8 +27,9 @@ RULE = (
     "another from inside its body. Distinct = distinct case JSON."
 )
 ASSUMPTIONS = [
-    "actions do not call advance_to/advance_by/sleep/start themselves (only schedule*, cancel, stop); a sleep inside an "
-    "action under advance_to makes 'leave the clock at the target' and 'clock never moves backwards' contradict each other",
+    "actions never sleep (a sleep inside an action under advance_to makes 'leave the clock at the target' and 'clock never "
+    "moves backwards' contradict each other); their re-entrant advance_to/advance_by calls target a time after now and, like "
+    "a re-entrant start(), are skipped once the same run was stopped by the action (they would then start a nested run)",
     "advance_to(now)/advance_by(0) is a no-op that runs nothing, as asserted by tests/test_scheduler/test_historicalscheduler.py",
     "stop() inside an action ends the current start()/advance_*() after that action; advance_* still leaves the clock at its target",
     "the clock after start() may or may not reflect a trailing dequeued cancelled item (property silent); both accepted",
@@ -50,6 +51,7 @@ class _World:
         self.handles = []
         self.flags = set()
         self.depth = 0
+        self.stopped_in_run = False
 
     def run_body(self, aid, spec, sched):
         self.log.append([aid, self.clock()])
@@ -71,7 +73,15 @@ class _World:
         elif k == "stop":
             if self.depth:
                 self.flags.add("stop-in-action")
+                self.stopped_in_run = True
             self.stop()
+        elif k in ("nadv", "nstart"):
+            # re-entrant drive call from inside an action.  While the scheduler is running this is a guarded no-op
+            # (advance_to: `if self.now == dt or self._is_enabled: return`, start: `if self._is_enabled: return`).
+            # After a stop() in the same run it would start a nested run (and may contradict 'clock at target'): skipped.
+            if self.depth and not self.stopped_in_run:
+                self.flags.add("nested-advance" if k == "nadv" else "nested-start")
+                self.nested(op, sched)
         else:
             raise AssertionError(op)
 
@@ -103,6 +113,15 @@ class _Real(_World):
         else:
             raise AssertionError(mode)
         self.handles.append(d)
+
+    def nested(self, op, sched):
+        s = sched if sched is not None else self.s
+        if op[0] == "nstart":
+            s.start()
+        elif op[1] == "to":
+            s.advance_to(enc_abs(self.kind, self.clock() + op[2], op[3]))
+        else:
+            s.advance_by(enc_rel(self.kind, op[2], op[3] if op[3] in REL_FORMS else "num"))
 
     def cancel(self, ref):
         if self.handles:
@@ -152,6 +171,12 @@ class _Model(_World):
     def stop(self):
         self.m.stop()
 
+    def nested(self, op, sched):
+        # the running scheduler ignores the call; TestScheduler.start() still queues its three harness actions first
+        if op[0] == "nstart" and self.kind == "test":
+            for t in TEST_INTERNALS:
+                self.m.schedule_absolute(t, None, internal=True)
+
     def run(self, e):
         aid, spec = e.payload
         self.run_body(aid, spec, None)
@@ -182,6 +207,7 @@ def _run(case):
         k = cmd[0]
         names.add(k)
         raised = False
+        real.stopped_in_run = model.stopped_in_run = False
         n_before = len(real.log)
         expect = None
         try:
@@ -355,13 +381,18 @@ def _dec_sched(b, depth):
 def _dec_spec(b, depth):
     ops = []
     for _ in range(b.take(_NOPS)):
-        k = b.take() % 6
+        k = b.take() % 8
         if k < 3 and depth > 0:
             ops.append(_dec_sched(b, depth - 1))
         elif k < 5:
             ops.append(["cancel", b.take() % 31])
-        else:
+        elif k == 5:
             ops.append(["stop"])
+        elif k == 6:
+            how = b.take(["to", "by"])
+            ops.append(["nadv", how, 1 + b.take() % 6, b.take(ABS_FORMS if how == "to" else REL_FORMS)])
+        else:
+            ops.append(["nstart"])
     return ops
 
 
